@@ -109,6 +109,7 @@ func cmdCheck(args []string) {
 	if *tier == "thorough" {
 		timeout = 60
 	}
+	runBoundedExecs(v.Obls, p, *repo, *verifDir)
 	var pending []*Obligation
 	for _, o := range v.Obls {
 		if o.Status == "" {
@@ -201,11 +202,22 @@ func cmdCheck(args []string) {
 	violations := 0
 	reported := map[string]bool{}
 	var firsts []*Obligation
+	// further refuted paths of the same obligation (with a different effect
+	// sequence): tried in turn when the first one cannot be realised on the real
+	// code (it may need, say, the random source to fail)
+	alternates := map[string][]*Obligation{}
+	altSeen := map[string]map[string]bool{}
 	for _, o := range failed {
+		sig := strings.Join(traceKinds(o), "|")
 		if reported[o.Name] {
+			if o.Status == "refuted" && o.PathSt != nil && len(alternates[o.Name]) < 3 && !altSeen[o.Name][sig] {
+				altSeen[o.Name][sig] = true
+				alternates[o.Name] = append(alternates[o.Name], o)
+			}
 			continue
 		}
 		reported[o.Name] = true
+		altSeen[o.Name] = map[string]bool{sig: true}
 		firsts = append(firsts, o)
 	}
 	// replays run in parallel; at most maxReplays per run (the others are
@@ -221,6 +233,18 @@ func cmdCheck(args []string) {
 		go func(i int, o *Obligation) {
 			defer rwg.Done()
 			confirmedBy[i] = writeReplay(paths[i], *prop, o, p, *repo, i < maxReplays)
+			if !confirmedBy[i] && i < maxReplays {
+				for k, alt := range alternates[o.Name] {
+					altPath := strings.TrimSuffix(paths[i], ".json") + fmt.Sprintf(".alt%d.json", k+1)
+					if writeReplay(altPath, *prop, alt, p, *repo, true) {
+						// the confirmed alternative becomes the replay of record
+						os.Rename(altPath, paths[i])
+						confirmedBy[i] = true
+						break
+					}
+					os.Remove(altPath)
+				}
+			}
 		}(i, o)
 	}
 	rwg.Wait()
@@ -326,6 +350,11 @@ func writeReplay(path, prop string, o *Obligation, p *Program, repo string, doRe
 		"solver_out": o.Output,
 	}
 	confirmed := false
+	if o.Kind == "bounded_exec" {
+		// the harness ran the real function: its output names the failing inputs
+		r["replay"] = map[string]interface{}{"confirmed": o.Status == "refuted", "command": o.BoundedCmd + "  (overlay injects /verif/bounded/" + o.Harness + ".go)", "harness_source": o.BoundedSrc, "output": o.Output, "pkg_dir": strings.SplitN(o.Func, ":", 2)[0], "run": "TestVerifBounded$"}
+		confirmed = o.Status == "refuted"
+	}
 	if o.Status == "refuted" && o.Model != "" && !doReplay {
 		r["replay"] = map[string]interface{}{"confirmed": false, "not_replayed": "replay budget of this run used by other failed obligations"}
 	}
@@ -485,4 +514,14 @@ func decideRegions(regs []*Obligation) {
 			}
 		}
 	}
+}
+
+func traceKinds(o *Obligation) []string {
+	var ks []string
+	if o.PathSt != nil {
+		for _, e := range o.PathSt.Trace {
+			ks = append(ks, e.Kind)
+		}
+	}
+	return ks
 }
